@@ -240,6 +240,9 @@ func (c *Check) Finish(verifDir string, started time.Time, writeEvidence bool) i
 			return 2
 		}
 	}
+	for _, n := range c.P.NormNotes {
+		fmt.Printf("note: %s\n", n)
+	}
 	fmt.Printf("%s %s: rules=%d obligations=%d discharged=%d known=%d violated=%d wall=%.2fs\n",
 		c.Property, c.Tier, len(c.Rules), len(c.Obs), ndis, nknown, nviol, time.Since(started).Seconds())
 	if nviol > 0 {
@@ -296,6 +299,9 @@ func (c *Check) writeEvidence(verifDir string, started time.Time, nviol, ndis, n
 		"trusted_base":        append([]string{"go/types", "go/ssa (x/tools v0.29.0)", "go/packages loading of /repo's working tree"}, c.Trusted...),
 		"whole_program":       c.P.Whole,
 		"exhaustive":          false,
+	}
+	if len(c.P.NormNotes) > 0 || len(c.P.roleNotes) > 0 {
+		cov["source_normalisation"] = append(append([]string{}, c.P.NormNotes...), c.P.roleNotes...)
 	}
 	for k, v := range c.Extra {
 		cov[k] = v
